@@ -525,7 +525,11 @@ def arg_spec(op, rng, consts, variant_hint, benign, falsy=False):
                             keys.insert(rng.randrange(len(keys) + 1), k)
                 shape[name] = {'dict': keys}
         elif name == 'other_graph':
-            shape[name] = {'graph': 1}
+            # the other graph may live in this store (Neo4j, stand-in driver) or be a graph of another backend:
+            # in-memory NetworkX (shared store / disjoint store), empty or holding nodes whose ids are stored values
+            kinds = ['neo4j', 'neo4j', ('nx', 1), ('nx', 3), ('nxd', 2), 'neo4j', ('nx', 0), ('nxd', 1), ('nx', 2)]
+            kd = kinds[variant_hint % len(kinds)]
+            shape[name] = {'graph': 1} if kd == 'neo4j' else {'graph': 1, 'backend': kd[0], 'nodes': kd[1]}
         elif name == 'comps':
             if variant_hint % 2 == 0:
                 shape[name] = None
@@ -585,7 +589,9 @@ def falsify(vals, shape, rng, op):
     for name, i in chosen:
         pool = FALSY_ANY if name == 'prop_val' else FALSY_STR
         f = rng.choice(pool)
-        if i is None:
+        if i is None and isinstance(vals.get(name), dict):
+            vals[name]['gid'] = f
+        elif i is None:
             vals[name] = f
         elif 'dict' in shape[name]:
             vals[name][i][1] = f
@@ -602,6 +608,8 @@ def fill(shape, rng, benign):
             out[name] = None
         elif 'dict' in sh:
             out[name] = [[k, adv_string(rng, benign)] for k in sh['dict']]
+        elif 'graph' in sh and sh.get('backend'):
+            out[name] = {'gid': adv_string(rng, benign), 'nodes': [adv_string(rng, benign) for _ in range(sh['nodes'])]}
         elif 'graph' in sh:
             out[name] = adv_string(rng, benign)
         elif 'comps' in sh:
@@ -634,6 +642,9 @@ def stored_strings(shape, vals, op=''):
             continue
         if 'dict' in sh:
             out += [(name, x[1]) for x in v]
+        elif 'graph' in sh and isinstance(v, dict):
+            out.append((name, v['gid']))
+            out += [(name + ' (node id)', x) for x in v['nodes']]
         elif 'graph' in sh:
             out.append((name, v))
         elif 'comps' in sh:
@@ -646,6 +657,65 @@ def stored_strings(shape, vals, op=''):
             out.append((name, v))
     # edge values ('' / 0 / False ...) carry no marker: they are judged by the comparison of the two assignments
     return [(n, v) for n, v in out if isinstance(v, str) and MARK_RE.search(v)]
+
+
+_PREP = {}
+
+
+def prepare_backends():
+    """Import order matters in this library: ABCASMPropertyGraph.__subclasshook__ (inherited by Neo4jASM) answers
+    True for every class that has get_all_network_nodes, so as soon as fim.graph.slices.neo4j_asm is imported
+    `isinstance(<any property graph>, Neo4jPropertyGraph)` becomes True - unless the (negative) answer was cached
+    before.  A process that never imports the ASM module sees False.  To walk the code paths of BOTH kinds of process
+    the harness asks the question for the in-memory graph classes before it imports the ASM module; every
+    observation records what isinstance answers at that moment (`nx_is_neo4j`)."""
+    if _PREP:
+        return _PREP
+    import importlib
+    m = importlib.import_module('fim.graph.neo4j_property_graph')
+    for mod in ('fim.graph.resources.neo4j_cbm', 'fim.graph.resources.neo4j_adm', 'fim.graph.resources.neo4j_arm',
+                'fim.graph.networkx_property_graph', 'fim.graph.networkx_property_graph_disjoint',
+                'fim.slivers.attached_components', 'fim.slivers.network_node'):
+        try:
+            importlib.import_module(mod)
+        except Exception:
+            pass
+    try:
+        from fim.graph.networkx_property_graph import NetworkXPropertyGraph
+        from fim.graph.networkx_property_graph_disjoint import NetworkXPropertyGraphDisjoint
+        _PREP['classes'] = (NetworkXPropertyGraph, NetworkXPropertyGraphDisjoint)
+        _PREP['asm_imported_first'] = 'fim.graph.slices.neo4j_asm' in sys.modules
+        _PREP['primed'] = [issubclass(c, m.Neo4jPropertyGraph) for c in _PREP['classes']]
+    except Exception as e:
+        _PREP['error'] = repr(e)
+    _PREP['done'] = True
+    return _PREP
+
+
+def nx_is_neo4j():
+    try:
+        import fim.graph.neo4j_property_graph as m
+        return any(issubclass(c, m.Neo4jPropertyGraph) for c in prepare_backends().get('classes', ()))
+    except Exception:
+        return None
+
+
+def other_backend_graph(backend, v):
+    """a real in-memory property graph (NetworkX, shared or disjoint store) holding the given node ids"""
+    if backend == 'nxd':
+        from fim.graph.networkx_property_graph_disjoint import NetworkXGraphImporterDisjoint as Imp, \
+            NetworkXPropertyGraphDisjoint as G
+    else:
+        from fim.graph.networkx_property_graph import NetworkXGraphImporter as Imp, NetworkXPropertyGraph as G
+    imp = Imp(logger=_LOG)
+    g = G(graph_id=v['gid'], importer=imp, logger=_LOG)
+    for i, nid in enumerate(v['nodes']):
+        g.add_node(node_id=nid, label='NetworkNode', props={'Name': 'n%d' % i, 'Type': 'Server'})
+    CREATED.append(imp)
+    return g
+
+
+CREATED = []      # importers of in-memory graphs built for the current call (their stores are emptied afterwards)
 
 
 def build_args(op, receiver_cls, idents, shape, vals):
@@ -666,6 +736,8 @@ def build_args(op, receiver_cls, idents, shape, vals):
             kw[name] = None
         elif 'dict' in sh:
             kw[name] = {k: x for k, x in v}
+        elif 'graph' in sh and isinstance(v, dict):
+            kw[name] = other_backend_graph(sh['backend'], v)
         elif 'graph' in sh:
             kw[name] = Neo4jPropertyGraph(graph_id=v, importer=imp, logger=_LOG)
         elif 'comps' in sh:
@@ -697,6 +769,7 @@ def build_args(op, receiver_cls, idents, shape, vals):
 
 
 def run_once(templates, op, receiver_cls, idents, shape, vals, fake=None):
+    prepare_backends()
     from fim.graph.neo4j_property_graph import Neo4jGraphImporter
     rec = Recorder(templates)
     fake = fake or {}
@@ -720,13 +793,18 @@ def run_once(templates, op, receiver_cls, idents, shape, vals, fake=None):
     finally:
         Neo4jGraphImporter.index_initialized = saved
         Recorder.current = None
+        while CREATED:
+            try:
+                CREATED.pop().delete_all_graphs()
+            except Exception:
+                pass
     stmts = []
     for s in rec.stmts:
         deep = []
         collect_strings(s['params'], deep)
         stmts.append({'text': s['text'], 'kws': s['kws'], 'tid': s['tid'], 'env': s['env'], 'op': s['op'],
                       'positional': s['positional'], 'param_strings': deep, 'nested_in': s.get('nested_in')})
-    return {'stmts': stmts, 'exc': exc}
+    return {'stmts': stmts, 'exc': exc, 'nx_is_neo4j': nx_is_neo4j()}
 
 
 def collect_strings(v, out):
@@ -743,7 +821,8 @@ def collect_strings(v, out):
 
 # not required to arrive verbatim as a parameter: `hops` is used by the method itself to filter results; the keys of
 # a merge policy are property-name patterns whose quoting belongs to the statement syntax
-CLIENT_SIDE_ARGS = ('hops', 'merge_properties (key)')
+# ... and the node ids held by an other-backend graph argument are that graph's data, not arguments of the call
+CLIENT_SIDE_ARGS = ('hops', 'merge_properties (key)', 'other_graph (node id)')
 # keys the backend fills in itself from other arguments; a caller's props may override them (all_props.update(props))
 RESERVED_KEYS = ['Class', 'GraphID', 'NodeID', 'Type', 'Name']
 OVERRIDDEN_BY = {'NodeID': 'node_id', 'GraphID': 'graph_id'}
@@ -879,6 +958,7 @@ class Ops(Stream):
         return extra
 
     def gen(self, rng, tier):
+        prepare_backends()
         a = analysis()
         consts = [v for _, v in a['consts']]
         self._memo = {}
@@ -1056,6 +1136,12 @@ class Ops(Stream):
             h['benign_cases'] += bool(c.get('benign'))
             h['falsy_value_cases'] = h.get('falsy_value_cases', 0) + bool(c.get('falsy'))
             h['found_by_coverage_search'] = h.get('found_by_coverage_search', 0) + bool(c.get('reached_by_search'))
+            if 'other_graph' in (c.get('shape') or {}):
+                k = 'other_graph:' + ((c['shape']['other_graph'] or {}).get('backend') or 'neo4j')
+                h[k] = h.get(k, 0) + 1
+            for r in o['runs']:
+                if r.get('nx_is_neo4j'):
+                    h['runs_where_isinstance_quirk_active'] = h.get('runs_where_isinstance_quirk_active', 0) + 1
             k = c.get('recv', '?')
             h['by_class'][k] = h['by_class'].get(k, 0) + 1
         h['templates_hit'] = len(hit - {None})
